@@ -10,7 +10,8 @@ use crate::{Doc, Node, Pattern};
 
 use std::borrow::Cow;
 
-trait Aggregator<'t, D: Doc> {
+// Clone: a trial match that is given up must be able to put the state back
+trait Aggregator<'t, D: Doc>: Clone {
   fn match_terminal(&mut self, node: &Node<'t, D>) -> Option<()>;
   fn match_meta_var(&mut self, var: &MetaVariable, node: &Node<'t, D>) -> Option<()>;
   fn match_ellipsis(
@@ -22,6 +23,7 @@ trait Aggregator<'t, D: Doc> {
 }
 
 // None until a pattern node is aligned with a candidate node
+#[derive(Clone)]
 struct ComputeEnd(Option<usize>);
 
 impl<'t, D: Doc> Aggregator<'t, D> for ComputeEnd {
